@@ -48,11 +48,18 @@ def files(tier):
     return _files[tier]
 
 
+STABLE = {'smiV2': ('pysmi.parser.smiv2', 'SmiV2Parser'), 'smiV1': ('pysmi.parser.smiv1', 'SmiV1Parser'), 'smiV1Relaxed': ('pysmi.parser.smiv1compat', 'SmiV1CompatParser')}
+
+
 def parser(d):
+    """The parser objects are made from the classes the package exports for the three dialects (what applications and
+    the scripts instantiate), and the one used is never the first object of its class in the process."""
     if d not in _parsers:
-        from pysmi.parser import dialect
-        from pysmi.parser.smi import parserFactory
-        _parsers[d] = parserFactory(**getattr(dialect, d))()
+        import importlib
+        mod, cls = STABLE[d]
+        klass = getattr(importlib.import_module(mod), cls)
+        _parsers[d + ':first'] = klass()
+        _parsers[d] = klass()
     p = _parsers[d]
     p.reset()
     return p
@@ -163,6 +170,12 @@ def run(scn):
             J.fire('truncate')
             ok1 = J.clause1(res, text, 'for file %s cut at %d' % (f.name, pos))
             inside = f.inside_module(pos)
+            if inside and res[0] == 'lexerr' and 'end of input' in str(getattr(res[1], 'msg', res[1])).lower():
+                # the offending "token" is the end of the text: it is on the last line of what is left of the file
+                ln = getattr(res[1], 'lineno', None)
+                if isinstance(ln, int) and ln != nlines(text):
+                    J.V('C11.2-lineno', 'text of %s cut at offset %d ends on line %d; the end-of-input error reports line %r' % (f.name, pos, nlines(text), ln),
+                        what='eof-line', reported_low=ln < nlines(text))
             if inside:
                 if res[0] == 'ok':
                     J.V('C11.3-truncated', 'text of %s cut at offset %d (inside a module) parsed successfully to %d module(s)' % (f.name, pos, len(res[1])),
